@@ -4,7 +4,8 @@
 use crate::refopt::{self, norm2};
 use crate::Out;
 use linfa::traits::{Fit, Predict};
-use linfa::Dataset;
+use crate::layout::{expand, lay};
+use linfa::DatasetBase;
 use linfa_logistic::MultiLogisticRegression;
 use lvmc_core::{guarded, Violation};
 use ndarray::{Array1, Array2};
@@ -30,18 +31,60 @@ pub struct MultiCase {
     pub retry_max_iter: u64,
     pub order: String,
     pub scale: f64,
+    /// rows (and groups) are cycled to this many samples (replicated lattice)
+    #[serde(default)]
+    pub n_rows: Option<usize>,
+    /// memory layout of the records handed to fit / of the query matrix handed to predict*
+    #[serde(default = "crate::std_layout")]
+    pub fit_layout: String,
+    #[serde(default = "crate::std_layout")]
+    pub query_layout: String,
+    /// element type of the subject: f64 | f32
+    #[serde(default = "crate::f64_name")]
+    pub float: String,
 }
 
 const USIZE_NAMES: [[usize; 4]; 2] = [[0, 1, 2, 3], [9, 4, 6, 2]];
 const STR_NAMES: [[&str; 4]; 2] = [["ape", "cat", "dog", "eel"], ["zebra", "ant", "yak", "bee"]];
 
 pub fn run(case: &MultiCase, viols: &mut Vec<Violation>) -> Out {
+    if case.fit_layout == "standard" && case.query_layout == "standard" {
+        return run_inner(case, viols);
+    }
+    // layout case: see binary::run
+    let mut base = case.clone();
+    base.fit_layout = "standard".into();
+    base.query_layout = "standard".into();
+    let mut bv = Vec::new();
+    let bo = run_inner(&base, &mut bv);
+    if !bv.is_empty() || bo.ood {
+        viols.extend(bv);
+        return bo;
+    }
+    let mut lv = Vec::new();
+    let o = run_inner(case, &mut lv);
+    for v in lv {
+        viols.push(crate::as_layout_dependence(v, &case.fit_layout, &case.query_layout));
+    }
+    o
+}
+
+fn run_inner(case: &MultiCase, viols: &mut Vec<Violation>) -> Out {
     let nm = (case.naming as usize).min(1);
-    match case.label_type.as_str() {
-        "usize" => typed::<usize>(case, USIZE_NAMES[nm].to_vec(), viols),
-        "str" => typed::<&'static str>(case, STR_NAMES[nm].to_vec(), viols),
-        "string" => typed::<String>(case, STR_NAMES[nm].iter().map(|s| s.to_string()).collect(), viols),
-        _ => panic!("bad label type"),
+    macro_rules! go {
+        ($f:ident) => {
+            match case.label_type.as_str() {
+                "usize" => $f::<usize>(case, USIZE_NAMES[nm].to_vec(), viols),
+                "str" => $f::<&'static str>(case, STR_NAMES[nm].to_vec(), viols),
+                "string" => $f::<String>(case, STR_NAMES[nm].iter().map(|s| s.to_string()).collect(), viols),
+                _ => panic!("bad label type"),
+            }
+        };
+    }
+    match case.float.as_str() {
+        "f64" => go!(typed_f64),
+        "f32" => go!(typed_f32),
+        _ => panic!("bad float type"),
     }
 }
 
@@ -54,17 +97,28 @@ fn clamp_active(x: &[Vec<f64>], theta: &[f64], k: usize, intercept: bool) -> boo
     gmax.is_finite() && rows.iter().any(|r| r.iter().map(|v| (v - gmax).exp()).sum::<f64>() < 1e-15)
 }
 
-fn typed<C: Ord + Clone + Default + std::fmt::Debug>(case: &MultiCase, names: Vec<C>, viols: &mut Vec<Violation>) -> Out {
+macro_rules! typed_impl {
+    ($name:ident, $F:ty, $is32:expr) => {
+fn $name<C: Ord + Clone + Default + std::fmt::Debug>(case: &MultiCase, names: Vec<C>, viols: &mut Vec<Violation>) -> Out {
     let mut out = Out::default();
-    let n = case.x.len();
-    let d = case.x[0].len();
+    let is32: bool = $is32;
+    let alpha_s = (case.alpha as $F) as f64;
+    // the data as the subject sees them (replicated to n_rows, rounded to its float type)
+    let xs: Vec<Vec<f64>> = expand(&case.x, case.n_rows).iter().map(|r| r.iter().map(|&v| (v as $F) as f64).collect()).collect();
+    let groups: Vec<u8> = expand(&case.groups, case.n_rows);
+    let n = xs.len();
+    let d = xs[0].len();
+    // tolerances: see binary.rs
+    let gscale: f64 = xs.iter().map(|r| r.iter().map(|v| v.abs()).sum::<f64>() + 1.0).sum();
+    let (ptol, margin, gap_rel, g_extra, ulp) = if is32 { (2e-6, 1e-6, 1e-5, 1e-5 * gscale, 1.2e-7) } else { (1e-9, 1e-9, 1e-8, 0.0, 0.0) };
+    let gthr = 10.0 * case.gtol + g_extra;
     let k = case.k;
     let pz = d + case.intercept as usize;
     let cj = || serde_json::to_value(crate::Case::Multi(case.clone())).unwrap();
-    let xmax = case.x.iter().flatten().fold(0.0f64, |m, v| m.max(v.abs())).max(1.0);
+    let xmax = xs.iter().flatten().fold(0.0f64, |m, v| m.max(v.abs())).max(1.0);
 
     // class values actually used, sorted = the documented column order
-    let mut trained: Vec<C> = case.groups.iter().map(|&g| names[g as usize].clone()).collect();
+    let mut trained: Vec<C> = groups.iter().map(|&g| names[g as usize].clone()).collect();
     trained.sort();
     trained.dedup();
     if trained.len() != k {
@@ -72,10 +126,10 @@ fn typed<C: Ord + Clone + Default + std::fmt::Debug>(case: &MultiCase, names: Ve
     }
     // own coding: column index = rank of the class value
     let col_of_group: Vec<usize> = (0..k).map(|g| trained.iter().position(|c| *c == names[g]).unwrap()).collect();
-    let yv: Vec<usize> = case.groups.iter().map(|&g| col_of_group[g as usize]).collect();
+    let yv: Vec<usize> = groups.iter().map(|&g| col_of_group[g as usize]).collect();
 
     // ---- own Newton solve from zero: existence certificate (alpha = 0) and reference minimum ----
-    let fgh = |t: &[f64]| refopt::multi_eval(&case.x, &yv, k, case.alpha, case.intercept, t);
+    let fgh = |t: &[f64]| refopt::multi_eval(&xs, &yv, k, alpha_s, case.intercept, t);
     let own = refopt::lm_newton(&fgh, &vec![0.0; pz * k], 1e-10 * xmax, 300);
     let own_spread = case
         .x
@@ -99,16 +153,18 @@ fn typed<C: Ord + Clone + Default + std::fmt::Debug>(case: &MultiCase, names: Ve
     }
 
     // ---- fit with the real code ----
-    let x = Array2::from_shape_fn((n, d), |(i, j)| case.x[i][j]);
-    let y: Array1<C> = Array1::from_iter(case.groups.iter().map(|&g| names[g as usize].clone()));
-    let ds = Dataset::new(x.clone(), y);
-    let mut params = MultiLogisticRegression::default()
-        .alpha(case.alpha)
+    let rows: Vec<Vec<$F>> = xs.iter().map(|r| r.iter().map(|&v| v as $F).collect()).collect();
+    let laid = lay(&rows, &case.fit_layout, <$F>::NAN);
+    let y: Array1<C> = Array1::from_iter(groups.iter().map(|&g| names[g as usize].clone()));
+    let ds = DatasetBase::new(laid.view(), y);
+    let _ = n;
+    let mut params = MultiLogisticRegression::<$F>::default()
+        .alpha(case.alpha as $F)
         .with_intercept(case.intercept)
         .max_iterations(case.max_iter)
-        .gradient_tolerance(case.gtol);
+        .gradient_tolerance(case.gtol as $F);
     if let Some(init) = &case.init {
-        params = params.initial_params(Array2::from_shape_fn((pz, k), |(i, j)| init[i][j]));
+        params = params.initial_params(Array2::from_shape_fn((pz, k), |(i, j)| init[i][j] as $F));
     }
     // does the global-shift clamp of log_sum_exp bite at the first trial point of the line search
     // (theta0 - gradient(theta0), the unit steepest-descent step L-BFGS starts with)?
@@ -119,7 +175,7 @@ fn typed<C: Ord + Clone + Default + std::fmt::Debug>(case: &MultiCase, names: Ve
     let first_trial_clamped = match fgh(&theta0) {
         Some(e0) => {
             let t1: Vec<f64> = theta0.iter().zip(&e0.g).map(|(a, b)| a - b).collect();
-            clamp_active(&case.x, &t1, k, case.intercept)
+            clamp_active(&xs, &t1, k, case.intercept)
         }
         None => false,
     };
@@ -131,7 +187,7 @@ fn typed<C: Ord + Clone + Default + std::fmt::Debug>(case: &MultiCase, names: Ve
     //     search extrapolates; nearly separable classes with a small alpha have score spreads near 34.5 at the minimiser)
     let optimum_clamped = [1.0, 2.0, 4.0, 8.0, 16.0].iter().any(|&t| {
         let p: Vec<f64> = theta0.iter().zip(&own.x).map(|(a, b)| a + t * (b - a)).collect();
-        clamp_active(&case.x, &p, k, case.intercept)
+        clamp_active(&xs, &p, k, case.intercept)
     });
     if optimum_clamped {
         out.tag("multi_ray_to_minimiser_enters_log_sum_exp_clamp_region");
@@ -159,9 +215,9 @@ fn typed<C: Ord + Clone + Default + std::fmt::Debug>(case: &MultiCase, names: Ve
 
     // ---- slow but healthy convergence must not be mistaken for a wrong fixed point: when the first fit
     //      (max_iter) fails the stationarity test, the verdict is taken from a refit with retry_max_iter ----
-    let gap_tol = 1e-8 * own.f.abs().max(1.0);
-    let measure = |m: &linfa_logistic::MultiFittedLogisticRegression<f64, C>| -> Option<(f64, f64)> {
-        let (wm, bm) = (m.params(), m.intercept());
+    let gap_tol = gap_rel * own.f.abs().max(1.0);
+    let measure = |m: &linfa_logistic::MultiFittedLogisticRegression<$F, C>| -> Option<(f64, f64)> {
+        let (wm, bm) = (m.params().mapv(|v| v as f64), m.intercept().mapv(|v| v as f64));
         let cl = m.classes();
         if wm.dim() != (d, k) || bm.len() != k || cl.len() != k {
             return None;
@@ -181,7 +237,7 @@ fn typed<C: Ord + Clone + Default + std::fmt::Debug>(case: &MultiCase, names: Ve
     };
     if case.retry_max_iter > case.max_iter {
         if let Some((gn, gap)) = measure(&model) {
-            if gn > 10.0 * case.gtol && gap > gap_tol {
+            if gn > gthr && gap > gap_tol {
                 out.tag("multi_refits_with_retry_max_iter");
                 match guarded(|| params.clone().max_iterations(case.retry_max_iter).fit(&ds)) {
                     Ok(Ok(m2)) => model = m2,
@@ -211,8 +267,8 @@ fn typed<C: Ord + Clone + Default + std::fmt::Debug>(case: &MultiCase, names: Ve
     let own_col_of_model_col: Vec<usize> = classes.iter().map(|c| trained.iter().position(|t| t == c).unwrap()).collect();
 
     // ---- returned parameters (re-ordered into the own column order) ----
-    let wm = model.params();
-    let bm = model.intercept();
+    let wm = model.params().mapv(|v| v as f64);
+    let bm = model.intercept().mapv(|v| v as f64);
     if wm.dim() != (d, k) || bm.len() != k {
         viols.push(Violation::new("multi_logistic.params.wrong_shape", format!("params {:?} intercept {} for d={} k={}", wm.dim(), bm.len(), d, k), cj()));
         return out;
@@ -241,10 +297,10 @@ fn typed<C: Ord + Clone + Default + std::fmt::Debug>(case: &MultiCase, names: Ve
     let at = fgh(&theta).expect("finite objective at finite parameters");
     let gn = norm2(&at.g);
     let gap = at.f - own.f;
-    if gn > 10.0 * case.gtol {
+    if gn > gthr {
         out.tag("multi_gradient_above_10tol");
     }
-    if gn > 10.0 * case.gtol && gap > gap_tol {
+    if gn > gthr && gap > gap_tol {
         let sig = if first_trial_clamped { "multi_logistic.fit.not_stationary.log_sum_exp_global_shift_clamp" } else { "multi_logistic.fit.not_stationary" };
         viols.push(Violation::new(
             sig,
@@ -269,7 +325,7 @@ fn typed<C: Ord + Clone + Default + std::fmt::Debug>(case: &MultiCase, names: Ve
     }
 
     // ---- probabilities and decisions ----
-    let mut queries: Vec<Vec<f64>> = case.x.clone();
+    let mut queries: Vec<Vec<f64>> = xs.clone();
     queries.push(vec![0.0; d]);
     // direction separating model column 0 from model column 1
     let u: Vec<f64> = (0..d).map(|j| wm[(j, 0)] - wm[(j, 1)]).collect();
@@ -286,8 +342,12 @@ fn typed<C: Ord + Clone + Default + std::fmt::Debug>(case: &MultiCase, names: Ve
     // keep only queries whose individual products |q_j W_jc| stay <= 1e6, so that the two sides' rounding of
     // the scores (cancellation between features) stays far below the 1e-9 comparison tolerance
     queries.retain(|qi| (0..d).all(|j| (0..k).all(|c| (qi[j] * wm[(j, c)]).abs() <= 1e6)));
-    let q = Array2::from_shape_fn((queries.len(), d), |(i, j)| queries[i][j]);
-    let (probs, pred) = match guarded(|| (model.predict_probabilities(&q), model.predict(&q))) {
+    // as the subject sees them
+    let queries: Vec<Vec<f64>> = queries.into_iter().map(|r| r.into_iter().map(|v| (v as $F) as f64).collect::<Vec<f64>>()).filter(|r| r.iter().all(|v| v.abs() < 1e30)).collect();
+    let qrows: Vec<Vec<$F>> = queries.iter().map(|r| r.iter().map(|&v| v as $F).collect()).collect();
+    let qlaid = lay(&qrows, &case.query_layout, <$F>::NAN);
+    let q = qlaid.view();
+    let (probs, pred) = match guarded(|| (model.predict_probabilities(&q).mapv(|v| v as f64), model.predict(&q))) {
         Ok(r) => r,
         Err(p) => {
             viols.push(Violation::new("multi_logistic.predict.panic", format!("prediction on finite queries panicked: {}", p), cj()));
@@ -301,6 +361,8 @@ fn typed<C: Ord + Clone + Default + std::fmt::Debug>(case: &MultiCase, names: Ve
     for (i, qi) in queries.iter().enumerate() {
         out.queries += 1;
         let row: Vec<f64> = (0..k).map(|c| probs[(i, c)]).collect();
+        // f32: rounding of the subject's own score (d products + bias) moves a probability by at most that much
+        let serr: f64 = ulp * (d as f64 + 1.0) * (0..k).map(|c| (0..d).map(|j| (qi[j] * wm[(j, c)]).abs()).sum::<f64>() + bm[c].abs()).fold(0.0f64, f64::max);
         let scores: Vec<f64> = (0..k).map(|c| (0..d).map(|j| qi[j] * wm[(j, c)]).sum::<f64>() + bm[c]).collect();
         let spread = scores.iter().cloned().fold(f64::NEG_INFINITY, f64::max) - scores.iter().cloned().fold(f64::INFINITY, f64::min);
         if spread > 100.0 {
@@ -311,17 +373,17 @@ fn typed<C: Ord + Clone + Default + std::fmt::Debug>(case: &MultiCase, names: Ve
             continue;
         }
         let sum: f64 = row.iter().sum();
-        if (sum - 1.0).abs() > 1e-9 {
+        if (sum - 1.0).abs() > margin {
             viols.push(Violation::new("multi_logistic.predict_probabilities.row_sum", format!("query {:?}: probabilities {:?} sum to {}", qi, row, sum), cj()));
             continue;
         }
         let pref = refopt::softmax(&scores);
-        if row.iter().zip(&pref).any(|(a, b)| (a - b).abs() > 1e-9) {
+        if row.iter().zip(&pref).any(|(a, b)| (a - b).abs() > ptol + serr) {
             viols.push(Violation::new("multi_logistic.predict_probabilities.wrong_value", format!("query {:?}: probabilities {:?} but softmax(xW + b) = {:?}", qi, row, pref), cj()));
             continue;
         }
         let pmax = row.iter().cloned().fold(f64::NEG_INFINITY, f64::max);
-        let tie: Vec<usize> = (0..k).filter(|&c| row[c] >= pmax - 1e-9).collect();
+        let tie: Vec<usize> = (0..k).filter(|&c| row[c] >= pmax - margin - serr).collect();
         if tie.len() > 1 {
             out.indeterminate += 1;
         }
@@ -335,3 +397,8 @@ fn typed<C: Ord + Clone + Default + std::fmt::Debug>(case: &MultiCase, names: Ve
     }
     out
 }
+    };
+}
+
+typed_impl!(typed_f64, f64, false);
+typed_impl!(typed_f32, f32, true);
